@@ -80,6 +80,13 @@ def build(case, a_delta):
         put(comp, "X_MOZ_SNOOZE_TIME", "X-MOZ-SNOOZE-TIME", sval)
     else:
         put(comp, "DTSTAMP", "DTSTAMP", cval)
+    if (c_i + s_i + nalarms) % 2 == 0:
+        # decoys: other timestamps of the component are no acknowledgement (only DTSTAMP / X-MOZ-LASTACK are);
+        # every value of C, absent included, occurs with and without them
+        late = T_INSTANT[kind] + timedelta(hours=3)
+        put(comp, "LAST_MODIFIED", "LAST-MODIFIED", late)
+        comp.add("CREATED", vDDDTypes(late))
+        comp.add("SEQUENCE", 7)
     specs = []
     for i in range(nalarms):
         al = Alarm()
